@@ -1819,4 +1819,1299 @@ theorem sqrt_ui_eq_sqrt (prec : ℕ) (hp : 1 ≤ prec) (w : ℕ) (h0 : w ≠ 0) 
   congr 4
 
 
+/-! ### subtraction -/
+
+/-! stripLow -/
+theorem stripLow_spec : ∀ (l : List Nat), ∃ k, l = List.replicate k 0 ++ stripLow l ∧
+    (stripLow l = [] ∨ (stripLow l).head? ≠ some 0)
+  | [] => ⟨0, rfl, Or.inl rfl⟩
+  | x :: xs => by
+      by_cases hx : x = 0
+      · obtain ⟨k, h1, h2⟩ := stripLow_spec xs
+        refine ⟨k + 1, ?_, ?_⟩
+        · simp only [stripLow, hx, if_true, List.replicate_succ, List.cons_append]; rw [← h1]
+        · simp only [stripLow, hx, if_true]; exact h2
+      · exact ⟨0, by simp [stripLow, hx], Or.inr (by simp [stripLow, hx])⟩
+
+theorem qv_zeros_append (k : ℕ) (l : List Nat) (e : ℤ) : qv (List.replicate k 0 ++ l) e = qv l e := by
+  unfold qv
+  rw [val_append, val_replicate_zero, List.length_append, List.length_replicate, zero_add]
+  push_cast
+  have : (B : ℚ) ^ k * (B : ℚ) ^ (e - ((k : ℤ) + (l.length : ℤ))) = (B : ℚ) ^ (e - (l.length : ℤ)) := by
+    rw [← zpow_natCast, ← zpow_add₀ Bq_ne]; congr 1; ring
+  rw [← this]; ring
+
+theorem qv_stripLow (l : List Nat) (e : ℤ) : qv (stripLow l) e = qv l e := by
+  obtain ⟨k, h1, _⟩ := stripLow_spec l
+  conv_rhs => rw [h1]
+  rw [qv_zeros_append]
+
+theorem Limbs_stripLow {l : List Nat} (h : Limbs l) : Limbs (stripLow l) := by
+  obtain ⟨k, h1, _⟩ := stripLow_spec l
+  rw [h1] at h; exact (Limbs_append.mp h).2
+
+theorem stripLow_length_le (l : List Nat) : (stripLow l).length ≤ l.length := by
+  obtain ⟨k, h1, _⟩ := stripLow_spec l
+  conv_rhs => rw [h1]
+  simp
+
+theorem stripLow_getLast {l : List Nat} (hne : l ≠ []) (ht : l.getLast? ≠ some 0) :
+    stripLow l ≠ [] ∧ (stripLow l).getLast? = l.getLast? := by
+  obtain ⟨k, h1, _⟩ := stripLow_spec l
+  have hne' : stripLow l ≠ [] := by
+    intro h; rw [h, List.append_nil] at h1
+    apply ht; rw [h1]
+    cases k with
+    | zero => rw [h1] at hne; simp at hne
+    | succ k => simp [List.getLast?_replicate]
+  refine ⟨hne', ?_⟩
+  conv_rhs => rw [h1]
+  rw [List.getLast?_append_of_ne_nil _ hne']
+
+/-! stripHigh (normalize) -/
+theorem dropWhile_eq_stripLow : ∀ r : List Nat, r.dropWhile (· == 0) = stripLow r
+  | [] => rfl
+  | x :: xs => by
+      by_cases hx : x = 0
+      · rw [List.dropWhile_cons_of_pos (by simp [hx]), dropWhile_eq_stripLow xs]; simp [stripLow, hx]
+      · rw [List.dropWhile_cons_of_neg (by simp [hx])]; simp [stripLow, hx]
+
+theorem normalize_spec (l : List Nat) :
+    ∃ k, l = normalize l ++ List.replicate k 0 ∧ (normalize l).getLast? ≠ some 0 := by
+  unfold normalize
+  rw [dropWhile_eq_stripLow]
+  obtain ⟨k, h1, h2⟩ := stripLow_spec l.reverse
+  refine ⟨k, ?_, ?_⟩
+  · have := congrArg List.reverse h1
+    rw [List.reverse_reverse, List.reverse_append, List.reverse_replicate] at this
+    exact this
+  · rw [List.getLast?_reverse]
+    rcases h2 with h | h
+    · rw [h]; simp
+    · exact h
+
+theorem qv_append_zeros (l : List Nat) (k : ℕ) (e : ℤ) : qv (l ++ List.replicate k 0) e = qv l (e - (k : ℤ)) := by
+  unfold qv
+  rw [val_append, val_replicate_zero, List.length_append, List.length_replicate, mul_zero, add_zero]
+  congr 2; push_cast; ring
+
+theorem stripHigh_spec (l : List Nat) (e : ℤ) (hl : Limbs l) :
+    Limbs (stripHigh l e).1 ∧ (stripHigh l e).1.getLast? ≠ some 0 ∧ (stripHigh l e).1.length ≤ l.length ∧
+    qv (stripHigh l e).1 (stripHigh l e).2 = qv l e ∧ val (stripHigh l e).1 = val l := by
+  unfold stripHigh
+  simp only
+  obtain ⟨k, h1, h2⟩ := normalize_spec l
+  have hlen : l.length = (normalize l).length + k := by
+    conv_lhs => rw [h1]
+    simp
+  refine ⟨?_, h2, by omega, ?_, ?_⟩
+  · rw [h1] at hl; exact (Limbs_append.mp hl).1
+  · conv_rhs => rw [h1]
+    rw [qv_append_zeros]; congr 1
+    have : l.length - (normalize l).length = k := by omega
+    rw [this]
+  · conv_rhs => rw [h1]
+    rw [val_append, val_replicate_zero]; simp
+
+/-! wrapSub -/
+theorem wrapSub_spec (n a b : ℕ) (hba : b ≤ a) (han : a - b < B ^ n) :
+    val (wrapSub n a b) = a - b ∧ (wrapSub n a b).length = n ∧ Limbs (wrapSub n a b) := by
+  unfold wrapSub
+  have h1 : (((a : ℤ) - (b : ℤ)) % ((B ^ n : ℕ) : ℤ)).toNat = a - b := by
+    have h2 : (a : ℤ) - (b : ℤ) = ((a - b : ℕ) : ℤ) := by omega
+    rw [h2, ← Int.natCast_mod, Int.toNat_natCast, Nat.mod_eq_of_lt han]
+  rw [h1]
+  exact ⟨val_toLimbs_of_lt han, toLimbs_length _ _, Limbs_toLimbs _ _⟩
+
+
+/-! subLimbs -/
+theorem subHi_spec (up vp : List Nat) (size : ℕ) (hlu : Limbs up) (hsz : size ≤ up.length)
+    (hge : val vp * B ^ size ≤ val up) :
+    val (up.take size ++ wrapSub (up.length - size) (val (up.drop size)) (val vp)) = val up - val vp * B ^ size ∧
+    (up.take size ++ wrapSub (up.length - size) (val (up.drop size)) (val vp)).length = up.length ∧
+    Limbs (up.take size ++ wrapSub (up.length - size) (val (up.drop size)) (val vp)) := by
+  have hsplit := val_take_drop up size hsz
+  have hlo := val_take_lt hlu size
+  have hhi : val (up.drop size) < B ^ (up.length - size) := by
+    have := val_lt _ (Limbs_drop hlu size); rwa [List.length_drop] at this
+  have hV : val vp ≤ val (up.drop size) := by
+    by_contra hc
+    push Not at hc
+    have : (val (up.drop size) + 1) * B ^ size ≤ val vp * B ^ size := Nat.mul_le_mul_right _ hc
+    nlinarith
+  obtain ⟨w1, w2, w3⟩ := wrapSub_spec (up.length - size) _ _ hV (lt_of_le_of_lt (Nat.sub_le _ _) hhi)
+  have htl : (up.take size).length = size := by rw [List.length_take]; omega
+  refine ⟨?_, by rw [List.length_append, htl, w2]; omega, Limbs_append.mpr ⟨Limbs_take hlu _, w3⟩⟩
+  rw [val_append, htl, w1, hsplit]
+  have : B ^ size * (val (up.drop size) - val vp) = B ^ size * val (up.drop size) - B ^ size * val vp := Nat.mul_sub _ _ _
+  rw [this, mul_comm (val vp)]
+  have : B ^ size * val vp ≤ B ^ size * val (up.drop size) := Nat.mul_le_mul_left _ hV
+  omega
+
+theorem subLo_spec (up vp : List Nat) (k n : ℕ) (hlu : Limbs up) (hn : n = up.length + k)
+    (hge : val vp ≤ val up * B ^ k) :
+    val (wrapSub n (val up * B ^ k) (val vp)) = val up * B ^ k - val vp ∧
+    (wrapSub n (val up * B ^ k) (val vp)).length = n ∧ Limbs (wrapSub n (val up * B ^ k) (val vp)) := by
+  have h1 : val up * B ^ k < B ^ n := by
+    rw [hn, pow_add]; exact Nat.mul_lt_mul_of_pos_right (val_lt up hlu) (Bpow_pos k)
+  exact wrapSub_spec n _ _ hge (lt_of_le_of_lt (Nat.sub_le _ _) h1)
+
+theorem subLimbs_spec (up vp : List Nat) (ed : ℕ) (hlu : Limbs up)
+    (hge : val vp * B ^ (max up.length (vp.length + ed) - ed - vp.length)
+            ≤ val up * B ^ (max up.length (vp.length + ed) - up.length)) :
+    val (subLimbs up vp ed) = val up * B ^ (max up.length (vp.length + ed) - up.length)
+        - val vp * B ^ (max up.length (vp.length + ed) - ed - vp.length) ∧
+    (subLimbs up vp ed).length = max up.length (vp.length + ed) ∧ Limbs (subLimbs up vp ed) := by
+  unfold subLimbs
+  simp only
+  by_cases h1 : up.length > ed
+  · rw [if_pos h1]
+    by_cases h0 : ed = 0
+    · rw [if_pos h0]
+      subst h0
+      by_cases h2 : up.length ≥ vp.length
+      · rw [if_pos h2]
+        have hm : max up.length (vp.length + 0) = up.length := by omega
+        rw [hm] at hge ⊢
+        rw [Nat.sub_self, pow_zero, mul_one, Nat.sub_zero] at hge ⊢
+        have := subHi_spec up vp (up.length - vp.length) hlu (by omega) hge
+        rwa [show up.length - (up.length - vp.length) = vp.length by omega] at this
+      · rw [if_neg h2]
+        have hm : max up.length (vp.length + 0) = vp.length := by omega
+        rw [hm] at hge ⊢
+        rw [Nat.sub_zero, Nat.sub_self, pow_zero, mul_one] at hge ⊢
+        exact subLo_spec up vp (vp.length - up.length) vp.length hlu (by omega) hge
+    · rw [if_neg h0]
+      by_cases h2 : vp.length + ed ≤ up.length
+      · rw [if_pos h2]
+        have hm : max up.length (vp.length + ed) = up.length := by omega
+        rw [hm] at hge ⊢
+        rw [Nat.sub_self, pow_zero, mul_one] at hge ⊢
+        exact subHi_spec up vp (up.length - ed - vp.length) hlu (by omega) hge
+      · rw [if_neg h2]
+        have hm : max up.length (vp.length + ed) = vp.length + ed := by omega
+        rw [hm] at hge ⊢
+        rw [show vp.length + ed - ed - vp.length = 0 by omega, pow_zero, mul_one] at hge ⊢
+        exact subLo_spec up vp (vp.length + ed - up.length) (vp.length + ed) hlu (by omega) hge
+  · rw [if_neg h1]
+    have hm : max up.length (vp.length + ed) = vp.length + ed := by omega
+    rw [hm] at hge ⊢
+    rw [show vp.length + ed - ed - vp.length = 0 by omega, pow_zero, mul_one] at hge ⊢
+    rw [show vp.length + ed - up.length + up.length = vp.length + ed by omega]
+    exact subLo_spec up vp (vp.length + ed - up.length) (vp.length + ed) hlu (by omega) hge
+
+
+
+/-- scaled limbs: (val l · B^k) · B^(e − (len l + k)) = qv l e -/
+theorem qv_scaled (l : List Nat) (k : ℕ) (e : ℤ) :
+    ((val l * B ^ k : ℕ) : ℚ) * (B : ℚ) ^ (e - ((l.length + k : ℕ) : ℤ)) = qv l e := by
+  unfold qv; push_cast
+  have : (B : ℚ) ^ k * (B : ℚ) ^ (e - ((l.length : ℤ) + (k : ℤ))) = (B : ℚ) ^ (e - (l.length : ℤ)) := by
+    rw [← zpow_natCast, ← zpow_add₀ Bq_ne]; congr 1; ring
+  rw [← this]; ring
+
+theorem qv_nil (e : ℤ) : qv [] e = 0 := by simp [qv]
+
+theorem qv_eq_zero_of_val {l : List Nat} {e : ℤ} (h : val l = 0) : qv l e = 0 := by simp [qv, h]
+
+theorem qv_pos_iff {l : List Nat} {e : ℤ} : 0 < qv l e ↔ 0 < val l := by
+  unfold qv
+  constructor
+  · intro h
+    by_contra hc
+    have : val l = 0 := by omega
+    rw [this] at h; simp at h
+  · intro h; exact mul_pos (by exact_mod_cast h) (zpow_pos Bq_pos _)
+
+theorem subGeneral_spec (prec1 : ℕ) (hp : 3 ≤ prec1) (ud vd : List Nat) (exp ediff : ℤ) (h0 : 0 ≤ ediff)
+    (hlu : Limbs ud) (hnu : ud ≠ []) (htu : ud.getLast? ≠ some 0) (hlv : Limbs vd)
+    (hgap : (B : ℚ) ^ (exp - 2) ≤ qv ud exp - qv vd (exp - ediff)) :
+    (subGeneral prec1 ud vd exp ediff).2.2 = false ∧
+    Limbs (subGeneral prec1 ud vd exp ediff).1 ∧ (subGeneral prec1 ud vd exp ediff).1 ≠ [] ∧
+    (subGeneral prec1 ud vd exp ediff).1.getLast? ≠ some 0 ∧ (subGeneral prec1 ud vd exp ediff).1.length ≤ prec1 ∧
+    ∃ (lou lov kv V' : ℕ),
+      qv (subGeneral prec1 ud vd exp ediff).1 (subGeneral prec1 ud vd exp ediff).2.1 =
+        qv ud exp - qv vd (exp - ediff) - (lou : ℚ) * (B : ℚ) ^ (exp - (ud.length : ℤ))
+          + (lov : ℚ) * (B : ℚ) ^ (exp - ediff - (vd.length : ℤ)) ∧
+      (lou : ℚ) * (B : ℚ) ^ (exp - (ud.length : ℤ)) < (B : ℚ) ^ (exp - (prec1 : ℤ)) ∧
+      (lov : ℚ) * (B : ℚ) ^ (exp - ediff - (vd.length : ℤ)) < (B : ℚ) ^ (exp - (prec1 : ℤ)) ∧
+      val ud = lou + B ^ (ud.length - prec1) * val (top prec1 ud) ∧ lou < B ^ (ud.length - prec1) ∧
+      val vd = lov + B ^ kv * V' ∧ lov < B ^ kv ∧ kv = ((vd.length : ℤ) + ediff - prec1).toNat := by
+  obtain ⟨t1, t2, t3, t4, t5, t6, _⟩ := top_facts prec1 (by omega) ud hlu hnu htu
+  have hnul : 0 < ud.length := List.length_pos_of_ne_nil hnu
+  set kv := ((vd.length : ℤ) + ediff - prec1).toNat with hkv
+  have hV := val_take_drop_any vd kv
+  have hlov := val_take_lt hlv kv
+  set vexp := exp - ediff with hvexp
+  have hlouq : ((val (ud.take (ud.length - prec1)) : ℕ) : ℚ) * (B : ℚ) ^ (exp - (ud.length : ℤ)) < (B : ℚ) ^ (exp - (prec1 : ℤ)) := by
+    rcases Nat.eq_zero_or_pos (ud.length - prec1) with h | h
+    · rw [h]; simp; exact zpow_pos Bq_pos _
+    · have := low_lt _ _ ud.length exp t6
+      have e : exp - (ud.length : ℤ) + ((ud.length - prec1 : ℕ) : ℤ) = exp - (prec1 : ℤ) := by omega
+      rwa [e] at this
+  have hXsplit := qv_top prec1 ud exp
+  have hpow : (B : ℚ) ^ (exp - (prec1 : ℤ)) ≤ (B : ℚ) ^ (exp - 2) / B := by
+    rw [le_div_iff₀ Bq_pos]
+    have : (B : ℚ) ^ (exp - (prec1 : ℤ)) * (B : ℚ) = (B : ℚ) ^ (exp - (prec1 : ℤ) + 1) := by rw [zpow_add₀ Bq_ne, zpow_one]
+    rw [this]; exact zpow_le_zpow_B (by omega)
+  have hB2 : (2 : ℚ) ≤ (B : ℚ) := by exact_mod_cast B_ge_two
+  have hpos2 : (0 : ℚ) < (B : ℚ) ^ (exp - 2) := zpow_pos Bq_pos _
+  unfold subGeneral
+  simp only [selV_eq, ← hkv]
+  by_cases hbig : ediff ≥ (prec1 : ℤ)
+  · rw [if_pos hbig]
+    refine ⟨rfl, t1, t2, t3, by rw [t4]; omega, val (ud.take (ud.length - prec1)), val vd, kv, 0, ?_, hlouq, ?_, t5, t6, ?_, ?_, rfl⟩
+    · simp only; rw [hXsplit]; unfold qv; ring
+    · have h1 : (val vd : ℚ) * (B : ℚ) ^ (vexp - (vd.length : ℤ)) < (B : ℚ) ^ vexp := qv_lt vd vexp hlv
+      exact lt_of_lt_of_le h1 (zpow_le_zpow_B (by omega))
+    · simp
+    · exact lt_of_lt_of_le (val_lt vd hlv) (Nat.pow_le_pow_right B_pos (by omega))
+  · rw [if_neg hbig]
+    obtain ⟨ed, hed⟩ : ∃ ed : ℕ, ediff = (ed : ℤ) := ⟨ediff.toNat, by omega⟩
+    have hedt : ediff.toNat = ed := by omega
+    have hYsplit := qv_split vd vexp (min kv vd.length) (Nat.min_le_right _ _)
+    have hlovq : ((val (vd.take kv) : ℕ) : ℚ) * (B : ℚ) ^ (vexp - (vd.length : ℤ)) < (B : ℚ) ^ (exp - (prec1 : ℤ)) := by
+      rcases Nat.eq_zero_or_pos kv with h | h
+      · rw [h]; simp; exact zpow_pos Bq_pos _
+      · have := low_lt _ _ vd.length vexp hlov
+        have e : vexp - (vd.length : ℤ) + (kv : ℤ) = exp - (prec1 : ℤ) := by omega
+        rwa [e] at this
+    have hkvlt : kv ≤ vd.length := by omega
+    have hYs : qv vd vexp = (val (vd.take kv) : ℚ) * (B : ℚ) ^ (vexp - (vd.length : ℤ)) + qv (vd.drop kv) vexp :=
+      qv_split vd vexp kv hkvlt
+    by_cases hvz : (stripLow (vd.drop kv)).length = 0
+    · -- nothing of V inside the window
+      rw [if_pos hvz]
+      have hvz' : qv (vd.drop kv) vexp = 0 := by
+        rw [← qv_stripLow, List.eq_nil_of_length_eq_zero hvz, qv_nil]
+      refine ⟨rfl, t1, t2, t3, by rw [t4]; omega, val (ud.take (ud.length - prec1)), val (vd.take kv), kv, val (vd.drop kv),
+        ?_, hlouq, hlovq, t5, t6, hV, hlov, rfl⟩
+      simp only; rw [hXsplit, hYs, hvz']; unfold qv; ring
+    · rw [if_neg hvz]
+      obtain ⟨sn, sl⟩ := stripLow_getLast t2 t3
+      have hunz : ¬ (stripLow (top prec1 ud)).length = 0 := fun h => sn (List.eq_nil_of_length_eq_zero h)
+      rw [if_neg hunz]
+      set up := stripLow (top prec1 ud) with hup
+      set vp := stripLow (vd.drop kv) with hvp
+      have hqu : qv up exp = qv (top prec1 ud) exp := qv_stripLow _ _
+      have hqv : qv vp vexp = qv (vd.drop kv) vexp := qv_stripLow _ _
+      have hlup : Limbs up := Limbs_stripLow t1
+      have hlvp : Limbs vp := Limbs_stripLow (Limbs_drop hlv _)
+      have hual : up.length ≤ prec1 := le_trans (stripLow_length_le _) (by rw [t4]; omega)
+      have hvl : vp.length + ed ≤ prec1 := by
+        have h1 : vp.length ≤ (vd.drop kv).length := stripLow_length_le (vd.drop kv)
+        rw [List.length_drop] at h1; omega
+      set rs := max up.length (vp.length + ed) with hrs
+      -- the kept parts still differ by a positive amount
+      have hdiff : (B : ℚ) ^ (exp - 2) - (B : ℚ) ^ (exp - (prec1 : ℤ)) < qv up exp - qv vp vexp := by
+        rw [hqu, hqv]
+        have e1 : qv (top prec1 ud) exp = qv ud exp - (val (ud.take (ud.length - prec1)) : ℚ) * (B : ℚ) ^ (exp - (ud.length : ℤ)) := by
+          rw [hXsplit]; ring
+        have e2 : qv (vd.drop kv) vexp = qv vd vexp - (val (vd.take kv) : ℚ) * (B : ℚ) ^ (vexp - (vd.length : ℤ)) := by
+          rw [hYs]; ring
+        rw [e1, e2]
+        have : (0 : ℚ) ≤ (val (vd.take kv) : ℚ) * (B : ℚ) ^ (vexp - (vd.length : ℤ)) :=
+          mul_nonneg (by positivity) (le_of_lt (zpow_pos Bq_pos _))
+        linarith
+      have hdpos : 0 < qv up exp - qv vp vexp := by
+        have : (B : ℚ) ^ (exp - (prec1 : ℤ)) ≤ (B : ℚ) ^ (exp - 2) / 2 := le_trans hpow (div_le_div_of_nonneg_left (le_of_lt hpos2) (by norm_num) hB2)
+        linarith
+      have hs1 := qv_scaled up (rs - up.length) exp
+      have hs2 := qv_scaled vp (rs - ed - vp.length) vexp
+      have hexp1 : exp - ((up.length + (rs - up.length) : ℕ) : ℤ) = exp - (rs : ℤ) := by omega
+      have hexp2 : vexp - ((vp.length + (rs - ed - vp.length) : ℕ) : ℤ) = exp - (rs : ℤ) := by omega
+      rw [hexp1] at hs1; rw [hexp2] at hs2
+      have hsc : (0 : ℚ) < (B : ℚ) ^ (exp - (rs : ℤ)) := zpow_pos Bq_pos _
+      have hge : val vp * B ^ (rs - ed - vp.length) ≤ val up * B ^ (rs - up.length) := by
+        have : ((val vp * B ^ (rs - ed - vp.length) : ℕ) : ℚ) * (B : ℚ) ^ (exp - (rs : ℤ))
+            ≤ ((val up * B ^ (rs - up.length) : ℕ) : ℚ) * (B : ℚ) ^ (exp - (rs : ℤ)) := by rw [hs1, hs2]; linarith
+        exact_mod_cast le_of_mul_le_mul_right this hsc
+      obtain ⟨g1, g2, g3⟩ := subLimbs_spec up vp ed hlup hge
+      rw [hedt]
+      obtain ⟨n1, n2, n3, n4, n5⟩ := stripHigh_spec (subLimbs up vp ed) exp g3
+      generalize stripHigh (subLimbs up vp ed) exp = r at *
+      obtain ⟨rd, e⟩ := r
+      simp only at n1 n2 n3 n4 n5 ⊢
+      have hqtp : qv (subLimbs up vp ed) exp = qv up exp - qv vp vexp := by
+        unfold qv at hs1 hs2 ⊢
+        rw [g2, g1, Nat.cast_sub hge, sub_mul, hs1, hs2]
+      refine ⟨trivial, n1, ?_, n2, by omega, val (ud.take (ud.length - prec1)), val (vd.take kv), kv, val (vd.drop kv),
+        ?_, hlouq, hlovq, t5, t6, hV, hlov, rfl⟩
+      · intro h
+        rw [h] at n5
+        have : 0 < qv (subLimbs up vp ed) exp := by rw [hqtp]; exact hdpos
+        rw [qv_pos_iff] at this
+        simp at n5; omega
+      · rw [n4, hqtp, hqu, hqv, hXsplit, hYs]; unfold qv; ring
+
+
+
+/-- value of a most-significant-first limb list placed with exponent e -/
+def qr (r : List Nat) (e : ℤ) : ℚ := qv r.reverse e
+
+theorem qr_nil (e : ℤ) : qr [] e = 0 := by simp [qr, qv]
+
+theorem qr_cons (h : ℕ) (t : List Nat) (e : ℤ) : qr (h :: t) e = (h : ℚ) * (B : ℚ) ^ (e - 1) + qr t (e - 1) := by
+  unfold qr qv
+  rw [List.reverse_cons, val_append, List.length_append, List.length_reverse]
+  simp only [val_cons, val_nil, List.length_cons, List.length_nil]
+  push_cast
+  have : (B : ℚ) ^ t.length * (B : ℚ) ^ (e - ((t.length : ℤ) + (0 + 1))) = (B : ℚ) ^ (e - 1) := by
+    rw [← zpow_natCast, ← zpow_add₀ Bq_ne]; congr 1; ring
+  rw [show e - 1 - (t.length : ℤ) = e - ((t.length : ℤ) + (0 + 1)) by ring]
+  rw [← this]; ring_nf
+
+theorem qr_nonneg (r : List Nat) (e : ℤ) : 0 ≤ qr r e := qv_nonneg _ _
+
+theorem Limbs_reverse {l : List Nat} (h : Limbs l) : Limbs l.reverse := fun x hx => h x (List.mem_reverse.mp hx)
+
+theorem qr_lt (r : List Nat) (e : ℤ) (hl : Limbs r) : qr r e < (B : ℚ) ^ e := qv_lt _ _ (Limbs_reverse hl)
+
+theorem Bz_succ (e : ℤ) : (B : ℚ) ^ e = (B : ℚ) * (B : ℚ) ^ (e - 1) := by
+  rw [← zpow_one_add₀ Bq_ne]; congr 1; ring
+
+/-- final inequality of the subtraction error analysis (general case and close case) -/
+theorem sub_err_q (prec : ℕ) (hp : 2 ≤ prec) (E r eu ev : ℚ) (e : ℤ)
+    (hr : r = E - eu + ev) (h0u : 0 ≤ eu) (h0v : 0 ≤ ev)
+    (hu : eu < (B : ℚ) ^ (e - ((prec : ℤ) + 1))) (hv : ev < (B : ℚ) ^ (e - ((prec : ℤ) + 1)))
+    (hE : (B : ℚ) ^ (e - 2) ≤ E) :
+    |r - E| < eps prec * |E| := by
+  have hEpos : 0 < E := lt_of_lt_of_le (zpow_pos Bq_pos _) hE
+  have hQ : (0 : ℚ) < (B : ℚ) ^ (prec - 1) := pow_pos Bq_pos _
+  have hW : (0 : ℚ) < (B : ℚ) ^ (e - ((prec : ℤ) + 1)) := zpow_pos Bq_pos _
+  rw [eps_eq, abs_of_pos hEpos, hr, show E - eu + ev - E = ev - eu by ring, div_mul_eq_mul_div, lt_div_iff₀ hQ]
+  have h1 : (B : ℚ) ^ (e - ((prec : ℤ) + 1)) * (B : ℚ) ^ (prec - 1) = (B : ℚ) ^ (e - 2) := by
+    rw [← zpow_natCast, ← zpow_add₀ Bq_ne]; congr 1; omega
+  have habs : |ev - eu| < (B : ℚ) ^ (e - ((prec : ℤ) + 1)) := by
+    rw [abs_lt]; constructor <;> linarith
+  calc |ev - eu| * (B : ℚ) ^ (prec - 1) < (B : ℚ) ^ (e - ((prec : ℤ) + 1)) * (B : ℚ) ^ (prec - 1) :=
+        mul_lt_mul_of_pos_right habs hQ
+    _ = (B : ℚ) ^ (e - 2) := h1
+    _ ≤ E := hE
+    _ ≤ 4 * E := by linarith
+
+/-- what every branch of `subCore` must deliver: X − Y ≈ ± limbs -/
+def SubOK (prec : ℕ) (D : ℚ) (r : List Nat × ℤ × Bool) : Prop :=
+  Limbs r.1 ∧ r.1.getLast? ≠ some 0 ∧ r.1.length ≤ prec + 1 ∧
+  (D = 0 → r.1 = []) ∧
+  (D ≠ 0 → |(if r.2.2 then -1 else 1) * qv r.1 r.2.1 - D| < eps prec * |D|)
+
+/-- sub.c general_case with the operands at least B^(e−2) apart -/
+theorem subGeneral_ok (prec : ℕ) (hp : 2 ≤ prec) (ud vd : List Nat) (exp ediff : ℤ) (h0 : 0 ≤ ediff)
+    (hlu : Limbs ud) (hnu : ud ≠ []) (htu : ud.getLast? ≠ some 0) (hlv : Limbs vd)
+    (hgap : (B : ℚ) ^ (exp - 2) ≤ qv ud exp - qv vd (exp - ediff)) :
+    SubOK prec (qv ud exp - qv vd (exp - ediff)) (subGeneral (prec + 1) ud vd exp ediff) := by
+  obtain ⟨s0, s1, s2, s3, s4, lou, lov, kv, V', q1, q2, q3, _⟩ :=
+    subGeneral_spec (prec + 1) (by omega) ud vd exp ediff h0 hlu hnu htu hlv hgap
+  have hpos : 0 < qv ud exp - qv vd (exp - ediff) := lt_of_lt_of_le (zpow_pos Bq_pos _) hgap
+  refine ⟨s1, s3, s4, fun h => absurd h (ne_of_gt hpos), fun _ => ?_⟩
+  rw [s0]
+  simp only [Bool.false_eq_true, if_false, one_mul]
+  push_cast at q2 q3
+  exact sub_err_q prec hp _ _ _ _ exp q1
+    (mul_nonneg (by positivity) (le_of_lt (zpow_pos Bq_pos _)))
+    (mul_nonneg (by positivity) (le_of_lt (zpow_pos Bq_pos _))) q2 q3 hgap
+
+
+theorem scan_spec : ∀ (ur vr : List Nat) (e : ℤ), Limbs ur → Limbs vr → ur ≠ [] → vr ≠ [] →
+    match scan ur vr e with
+    | .uGone vr' e' => qr ur e - qr vr e = - qr vr' e' ∧ Limbs vr'
+    | .vGone ur' e' => qr ur e - qr vr e = qr ur' e' ∧ Limbs ur' ∧ ur' ≠ []
+    | .differ ur' vr' e' => qr ur e - qr vr e = qr ur' e' - qr vr' e' ∧ Limbs ur' ∧ Limbs vr' ∧
+        ur' ≠ [] ∧ vr' ≠ [] ∧ ur'.headD 0 ≠ vr'.headD 0
+  | [], _, _, _, _, h, _ => absurd rfl h
+  | _ :: _, [], _, _, _, _, h => absurd rfl h
+  | a :: us, b :: vs, e, hlu, hlv, _, _ => by
+      have ⟨_, hus⟩ := Limbs_cons.mp hlu
+      have ⟨_, hvs⟩ := Limbs_cons.mp hlv
+      unfold scan
+      by_cases hab : (a != b) = true
+      · rw [if_pos hab]
+        exact ⟨rfl, hlu, hlv, by simp, by simp, by simpa using hab⟩
+      · rw [if_neg hab]
+        have hab' : a = b := by simpa using hab
+        subst hab'
+        have hstep : qr (a :: us) e - qr (a :: vs) e = qr us (e - 1) - qr vs (e - 1) := by
+          rw [qr_cons, qr_cons]; ring
+        by_cases h1 : us.isEmpty = true
+        · rw [if_pos h1]
+          have : us = [] := List.isEmpty_iff.mp h1
+          subst this
+          exact ⟨by rw [hstep, qr_nil]; ring, hvs⟩
+        · rw [if_neg h1]
+          have hune : us ≠ [] := fun h => h1 (by rw [h]; rfl)
+          by_cases h2 : vs.isEmpty = true
+          · rw [if_pos h2]
+            have : vs = [] := List.isEmpty_iff.mp h2
+            subst this
+            exact ⟨by rw [hstep, qr_nil]; ring, hus, hune⟩
+          · rw [if_neg h2]
+            have hvne : vs ≠ [] := fun h => h2 (by rw [h]; rfl)
+            have ih := scan_spec us vs (e - 1) hus hvs hune hvne
+            rw [hstep]
+            exact ih
+
+
+/-- value-preserving truncation of a normalised little-endian vector to prec+1 limbs -/
+theorem trunc_ok (prec : ℕ) (hp : 1 ≤ prec) (d : List Nat) (e : ℤ) (hl : Limbs d) (hne : d ≠ [])
+    (ht : d.getLast? ≠ some 0) :
+    Limbs (top (prec + 1) d) ∧ top (prec + 1) d ≠ [] ∧ (top (prec + 1) d).getLast? ≠ some 0 ∧
+    (top (prec + 1) d).length ≤ prec + 1 ∧
+    |qv (top (prec + 1) d) e - qv d e| < eps prec * |qv d e| ∧
+    (B ^ (d.length - prec) ∣ val d → qv (top (prec + 1) d) e = qv d e) := by
+  obtain ⟨t1, t2, t3, t4, t5, t6, t7⟩ := top_trunc prec hp d hl hne ht
+  have hq : qv (top (prec + 1) d) e
+      = 1 * ((val (top (prec + 1) d) * B ^ (d.length - (prec + 1)) : ℕ) : ℚ) * (B : ℚ) ^ (e - (d.length : ℤ)) := by
+    rw [one_mul]
+    have := qv_scaled (top (prec + 1) d) (d.length - (prec + 1)) e
+    rw [← this, t4]; congr 2; omega
+  have hq2 : qv d e = 1 * ((val d : ℕ) : ℚ) * (B : ℚ) ^ (e - (d.length : ℤ)) := by unfold qv; ring
+  refine ⟨t1, t2, t3, by rw [t4]; omega, ?_, ?_⟩
+  · rw [hq, hq2]; exact err_of_nat 1 (Or.inl rfl) _ _ _ (zpow_pos Bq_pos _) prec t5 t6
+  · intro hd; rw [hq, hq2, t7 hd]
+
+theorem cancellation_ok (prec : ℕ) (hp : 1 ≤ prec) (wr : List Nat) (e : ℤ) (hl : Limbs wr) (flip : Bool) (σ : ℚ)
+    (hσ : σ = if flip then -1 else 1) :
+    SubOK prec (σ * qr wr e) ((cancellation (prec + 1) wr e).1, (cancellation (prec + 1) wr e).2, flip) := by
+  unfold cancellation
+  simp only
+  rw [dropWhile_eq_stripLow]
+  obtain ⟨k, h1, h2⟩ := stripLow_spec wr
+  set w := stripLow wr with hw
+  have hlw : Limbs w := Limbs_stripLow hl
+  have hk : wr.length - w.length = k := by
+    have : wr.length = k + w.length := by conv_lhs => rw [h1]; simp
+    omega
+  have hqr : qr wr e = qr w (e - (k : ℤ)) := by
+    unfold qr
+    conv_lhs => rw [h1, List.reverse_append, List.reverse_replicate]
+    exact qv_append_zeros _ _ _
+  have hrev : (w.take (prec + 1)).reverse = top (prec + 1) w.reverse := by
+    unfold top; rw [List.reverse_take, List.length_reverse]
+  rw [hk, hrev, hqr]
+  have hσ1 : σ = 1 ∨ σ = -1 := by cases flip <;> simp [hσ]
+  by_cases hw0 : w = []
+  · rw [hw0]
+    refine ⟨by simp [top, Limbs_nil], by simp [top], by simp [top], fun _ => by simp [top], fun h => ?_⟩
+    exfalso; apply h; simp [qr_nil]
+  · have hrne : w.reverse ≠ [] := by simpa using hw0
+    have hrt : w.reverse.getLast? ≠ some 0 := by
+      rw [List.getLast?_reverse]; exact h2.resolve_left hw0
+    obtain ⟨c1, c2, c3, c4, c5, _⟩ := trunc_ok prec hp w.reverse (e - (k : ℤ)) (Limbs_reverse hlw) hrne hrt
+    have hpos : 0 < qv w.reverse (e - (k : ℤ)) := qv_pos_iff.mpr (val_pos_of_top hrne hrt)
+    refine ⟨c1, c3, c4, fun h => ?_, fun _ => ?_⟩
+    · exfalso
+      unfold qr at h
+      rcases hσ1 with h' | h' <;> rw [h'] at h <;> linarith
+    · simp only
+      rw [← hσ]
+      unfold qr
+      rw [← mul_sub, abs_mul, abs_mul]
+      have : |σ| = 1 := by rcases hσ1 with h' | h' <;> rw [h'] <;> simp
+      rw [this, one_mul, one_mul]; exact c5
+
+
+
+theorem wrapSub_wrap (n a b : ℕ) (hab : a < b) (hb : b ≤ a + B ^ n) :
+    val (wrapSub n a b) = a + B ^ n - b ∧ (wrapSub n a b).length = n ∧ Limbs (wrapSub n a b) := by
+  unfold wrapSub
+  have h1 : (((a : ℤ) - (b : ℤ)) % ((B ^ n : ℕ) : ℤ)).toNat = a + B ^ n - b := by
+    have h2 : (a : ℤ) - (b : ℤ) = ((a + B ^ n - b : ℕ) : ℤ) + ((B ^ n : ℕ) : ℤ) * (-1) := by
+      rw [Nat.cast_sub hb]; push_cast; ring
+    rw [h2, Int.add_mul_emod_self_left, ← Int.natCast_mod, Int.toNat_natCast, Nat.mod_eq_of_lt (by omega)]
+  rw [h1]
+  exact ⟨val_toLimbs_of_lt (by omega), toLimbs_length _ _, Limbs_toLimbs _ _⟩
+
+/-- final inequality, variant with the weaker lower bound 2E ≥ B^(e−2) -/
+theorem sub_err_q' (prec : ℕ) (hp : 1 ≤ prec) (E r eu ev : ℚ) (e : ℤ)
+    (hr : r = E - eu + ev) (h0u : 0 ≤ eu) (h0v : 0 ≤ ev)
+    (hu : eu < (B : ℚ) ^ (e - ((prec : ℤ) + 1))) (hv : ev < (B : ℚ) ^ (e - ((prec : ℤ) + 1)))
+    (hE : (B : ℚ) ^ (e - 2) ≤ 2 * E) :
+    |r - E| < eps prec * |E| := by
+  have hEpos : 0 < E := by have := zpow_pos Bq_pos (e - 2); linarith
+  have hQ : (0 : ℚ) < (B : ℚ) ^ (prec - 1) := pow_pos Bq_pos _
+  rw [eps_eq, abs_of_pos hEpos, hr, show E - eu + ev - E = ev - eu by ring, div_mul_eq_mul_div, lt_div_iff₀ hQ]
+  have h1 : (B : ℚ) ^ (e - ((prec : ℤ) + 1)) * (B : ℚ) ^ (prec - 1) = (B : ℚ) ^ (e - 2) := by
+    rw [← zpow_natCast, ← zpow_add₀ Bq_ne]; congr 1; omega
+  have habs : |ev - eu| < (B : ℚ) ^ (e - ((prec : ℤ) + 1)) := by
+    rw [abs_lt]; constructor <;> linarith
+  calc |ev - eu| * (B : ℚ) ^ (prec - 1) < (B : ℚ) ^ (e - ((prec : ℤ) + 1)) * (B : ℚ) ^ (prec - 1) :=
+        mul_lt_mul_of_pos_right habs hQ
+    _ = (B : ℚ) ^ (e - 2) := h1
+    _ ≤ 2 * E := hE
+    _ ≤ 4 * E := by linarith
+
+/-- natural-number content of `closeLimbs`: c extra limb, value B^n + u·B^(n−a) − v·B^(n−b) -/
+theorem closeLimbs_nat (up vp : List Nat) (e1 : ℤ) (hlu : Limbs up) (hlv : Limbs vp) :
+    ∃ c : ℕ, c ≤ 1 ∧ (closeLimbs up vp e1).1.length = max up.length vp.length + c ∧
+      (closeLimbs up vp e1).2 = e1 + (c : ℤ) ∧ Limbs (closeLimbs up vp e1).1 ∧
+      val (closeLimbs up vp e1).1 + val vp * B ^ (max up.length vp.length - vp.length)
+        = B ^ (max up.length vp.length) + val up * B ^ (max up.length vp.length - up.length) := by
+  have hU := val_lt up hlu
+  have hV := val_lt vp hlv
+  have one_lt : (1 : ℕ) < B := one_lt_B
+  have L1 : Limbs [1] := Limbs_cons.mpr ⟨one_lt, Limbs_nil⟩
+  unfold closeLimbs
+  simp only
+  by_cases hb : vp.length = 0
+  · rw [if_pos hb]
+    have hvp : vp = [] := List.eq_nil_of_length_eq_zero hb
+    subst hvp
+    refine ⟨1, le_refl _, by simp, by simp, Limbs_append.mpr ⟨hlu, L1⟩, ?_⟩
+    simp [val_append]; ring
+  · rw [if_neg hb]
+    by_cases ha : up.length = 0
+    · rw [if_pos ha]
+      have hup : up = [] := List.eq_nil_of_length_eq_zero ha
+      subst hup
+      have hm : max ([] : List Nat).length vp.length = vp.length := by simp
+      by_cases hv0 : val vp = 0
+      · rw [if_pos hv0, hv0]
+        obtain ⟨w1, w2, w3⟩ := wrapSub_spec vp.length 0 0 (le_refl _) (by simpa using Bpow_pos vp.length)
+        refine ⟨1, le_refl _, by simp [w2], by simp, Limbs_append.mpr ⟨w3, L1⟩, ?_⟩
+        rw [val_append, w1, w2]; simp
+      · rw [if_neg hv0]
+        obtain ⟨w1, w2, w3⟩ := wrapSub_wrap vp.length 0 (val vp) (by omega) (by omega)
+        refine ⟨0, by omega, by simp [w2], by simp, w3, ?_⟩
+        rw [w1, hm]; simp; omega
+    · rw [if_neg ha]
+      by_cases hab : up.length ≥ vp.length
+      · rw [if_pos hab]
+        have hm : max up.length vp.length = up.length := by omega
+        rw [hm, Nat.sub_self, pow_zero, mul_one]
+        have hsplit := val_take_drop up (up.length - vp.length) (by omega)
+        have hhi : val (up.drop (up.length - vp.length)) < B ^ vp.length := by
+          have := val_lt _ (Limbs_drop hlu (up.length - vp.length))
+          rwa [List.length_drop, show up.length - (up.length - vp.length) = vp.length by omega] at this
+        have htl : (up.take (up.length - vp.length)).length = up.length - vp.length := by rw [List.length_take]; omega
+        have hpw : B ^ up.length = B ^ (up.length - vp.length) * B ^ vp.length := by rw [← pow_add]; congr 1; omega
+        by_cases hge : val (up.drop (up.length - vp.length)) ≥ val vp
+        · rw [if_pos hge]
+          obtain ⟨w1, w2, w3⟩ := wrapSub_spec vp.length _ _ hge (lt_of_le_of_lt (Nat.sub_le _ _) hhi)
+          refine ⟨1, le_refl _, ?_, by simp, Limbs_append.mpr ⟨Limbs_append.mpr ⟨Limbs_take hlu _, w3⟩, L1⟩, ?_⟩
+          · simp [htl, w2]; omega
+          · rw [val_append, val_append, w1, htl, List.length_append, htl, w2,
+              show up.length - vp.length + vp.length = up.length by omega, hsplit]
+            simp only [val_cons, val_nil, mul_zero, add_zero, mul_one]
+            have : B ^ (up.length - vp.length) * (val (up.drop (up.length - vp.length)) - val vp)
+                = B ^ (up.length - vp.length) * val (up.drop (up.length - vp.length)) - B ^ (up.length - vp.length) * val vp :=
+              Nat.mul_sub _ _ _
+            have h2 : B ^ (up.length - vp.length) * val vp ≤ B ^ (up.length - vp.length) * val (up.drop (up.length - vp.length)) :=
+              Nat.mul_le_mul_left _ hge
+            rw [this, mul_comm (val vp)]; omega
+        · rw [if_neg hge]
+          obtain ⟨w1, w2, w3⟩ := wrapSub_wrap vp.length (val (up.drop (up.length - vp.length))) (val vp) (by omega) (by omega)
+          refine ⟨0, by omega, ?_, by simp, Limbs_append.mpr ⟨Limbs_take hlu _, w3⟩, ?_⟩
+          · simp [htl, w2]; omega
+          · rw [val_append, w1, htl, hsplit, hpw, Nat.mul_sub, mul_add, mul_comm (val vp)]
+            have h2 : B ^ (up.length - vp.length) * val vp
+                ≤ B ^ (up.length - vp.length) * val (up.drop (up.length - vp.length)) + B ^ (up.length - vp.length) * B ^ vp.length := by
+              have : val vp ≤ val (up.drop (up.length - vp.length)) + B ^ vp.length := by omega
+              calc _ ≤ B ^ (up.length - vp.length) * (val (up.drop (up.length - vp.length)) + B ^ vp.length) := Nat.mul_le_mul_left _ this
+                _ = _ := by ring
+            omega
+      · rw [if_neg hab]
+        have hm : max up.length vp.length = vp.length := by omega
+        rw [hm, Nat.sub_self, pow_zero, mul_one]
+        have hlt : val up * B ^ (vp.length - up.length) < B ^ vp.length := by
+          have : vp.length = up.length + (vp.length - up.length) := by omega
+          conv_rhs => rw [this, pow_add]
+          exact Nat.mul_lt_mul_of_pos_right hU (Bpow_pos _)
+        by_cases hge : val up * B ^ (vp.length - up.length) ≥ val vp
+        · rw [if_pos hge]
+          obtain ⟨w1, w2, w3⟩ := wrapSub_spec vp.length _ _ hge (lt_of_le_of_lt (Nat.sub_le _ _) hlt)
+          refine ⟨1, le_refl _, by simp [w2], by simp, Limbs_append.mpr ⟨w3, L1⟩, ?_⟩
+          rw [val_append, w1, w2]; simp only [val_cons, val_nil, mul_zero, add_zero, mul_one]; omega
+        · rw [if_neg hge]
+          obtain ⟨w1, w2, w3⟩ := wrapSub_wrap vp.length (val up * B ^ (vp.length - up.length)) (val vp) (by omega) (by omega)
+          refine ⟨0, by omega, by simp [w2], by simp, w3, ?_⟩
+          rw [w1]; omega
+
+
+
+theorem closeLimbs_q (up vp : List Nat) (e1 : ℤ) (hlu : Limbs up) (hlv : Limbs vp) :
+    Limbs (closeLimbs up vp e1).1 ∧ (closeLimbs up vp e1).1.length ≤ max up.length vp.length + 1 ∧
+    qv (closeLimbs up vp e1).1 (closeLimbs up vp e1).2 = (B : ℚ) ^ e1 + qv up e1 - qv vp e1 := by
+  obtain ⟨c, hc, h1, h2, h3, h4⟩ := closeLimbs_nat up vp e1 hlu hlv
+  refine ⟨h3, by omega, ?_⟩
+  set n := max up.length vp.length with hn
+  have hs1 := qv_scaled up (n - up.length) e1
+  have hs2 := qv_scaled vp (n - vp.length) e1
+  have e1' : e1 - ((up.length + (n - up.length) : ℕ) : ℤ) = e1 - (n : ℤ) := by omega
+  have e2' : e1 - ((vp.length + (n - vp.length) : ℕ) : ℤ) = e1 - (n : ℤ) := by omega
+  rw [e1'] at hs1; rw [e2'] at hs2
+  have hq : qv (closeLimbs up vp e1).1 (closeLimbs up vp e1).2 = ((val (closeLimbs up vp e1).1 : ℕ) : ℚ) * (B : ℚ) ^ (e1 - (n : ℤ)) := by
+    unfold qv; rw [h1, h2]; congr 2; push_cast; ring
+  have hB : ((B ^ n : ℕ) : ℚ) * (B : ℚ) ^ (e1 - (n : ℤ)) = (B : ℚ) ^ e1 := by
+    push_cast; rw [← zpow_natCast, ← zpow_add₀ Bq_ne]; congr 1; ring
+  have h4q : ((val (closeLimbs up vp e1).1 + val vp * B ^ (n - vp.length) : ℕ) : ℚ) * (B : ℚ) ^ (e1 - (n : ℤ))
+      = ((B ^ n + val up * B ^ (n - up.length) : ℕ) : ℚ) * (B : ℚ) ^ (e1 - (n : ℤ)) := by rw [h4]
+  rw [Nat.cast_add, Nat.cast_add, add_mul, add_mul, hs1, hs2, hB, ← hq] at h4q
+  linarith
+
+/-- most-significant-first split -/
+theorem qr_append (a b : List Nat) (e : ℤ) : qr (a ++ b) e = qr a e + qr b (e - (a.length : ℤ)) := by
+  induction a generalizing e with
+  | nil => simp [qr_nil]
+  | cons x xs ih =>
+    rw [List.cons_append, qr_cons, qr_cons, ih]
+    simp only [List.length_cons]; push_cast
+    rw [show e - 1 - (xs.length : ℤ) = e - ((xs.length : ℤ) + 1) by ring]; ring
+
+theorem qr_take_drop (r : List Nat) (n : ℕ) (e : ℤ) (hl : Limbs r) :
+    qr r e = qr (r.take n) e + (qr r e - qr (r.take n) e) ∧ 0 ≤ qr r e - qr (r.take n) e ∧
+    qr r e - qr (r.take n) e < (B : ℚ) ^ (e - (n : ℤ)) := by
+  have h := qr_append (r.take n) (r.drop n) e
+  rw [List.take_append_drop] at h
+  refine ⟨by ring, by rw [h]; linarith [qr_nonneg (r.drop n) (e - ((r.take n).length : ℤ))], ?_⟩
+  rw [h, add_sub_cancel_left]
+  rcases le_or_gt n r.length with hn | hn
+  · have : (r.take n).length = n := by rw [List.length_take]; omega
+    rw [this]; exact qr_lt _ _ (Limbs_drop hl n)
+  · rw [List.drop_eq_nil_of_le (le_of_lt hn), qr_nil]; exact zpow_pos Bq_pos _
+
+theorem qr_replicate_max (k : ℕ) (t : List Nat) (e : ℤ) :
+    qr (List.replicate k (B - 1) ++ t) e = (B : ℚ) ^ e - (B : ℚ) ^ (e - (k : ℤ)) + qr t (e - (k : ℤ)) := by
+  induction k generalizing e with
+  | zero => simp
+  | succ k ih =>
+    rw [List.replicate_succ, List.cons_append, qr_cons, ih]
+    have hB1 : ((B - 1 : ℕ) : ℚ) = (B : ℚ) - 1 := by rw [Nat.cast_sub (le_of_lt one_lt_B)]; simp
+    rw [hB1, Bz_succ e]; push_cast
+    rw [show e - 1 - (k : ℤ) = e - ((k : ℤ) + 1) by ring]; ring
+
+theorem dropWhile_spec (p : Nat → Bool) : ∀ (l : List Nat), ∃ k, l = l.take k ++ l.dropWhile p ∧ k = l.length - (l.dropWhile p).length ∧
+    (∀ x ∈ l.take k, p x = true) ∧ (l.dropWhile p = [] ∨ ∃ h t, l.dropWhile p = h :: t ∧ p h = false)
+  | [] => ⟨0, by simp, by simp, by simp, Or.inl rfl⟩
+  | x :: xs => by
+      by_cases hx : p x = true
+      · obtain ⟨k, h1, h2, h3, h4⟩ := dropWhile_spec p xs
+        rw [List.dropWhile_cons_of_pos hx]
+        refine ⟨k + 1, by simp only [List.take_succ_cons, List.cons_append]; rw [← h1], ?_, ?_, h4⟩
+        · have := congrArg List.length h1; simp at this ⊢; omega
+        · intro y hy; simp only [List.take_succ_cons, List.mem_cons] at hy
+          rcases hy with h | h
+          · rw [h]; exact hx
+          · exact h3 y h
+      · rw [List.dropWhile_cons_of_neg hx]
+        exact ⟨0, by simp, by simp, by simp, Or.inr ⟨x, xs, rfl, by simpa using hx⟩⟩
+
+
+theorem take_eq_replicate {l : List Nat} {k : ℕ} {c : ℕ} (hk : k ≤ l.length) (h : ∀ x ∈ l.take k, x = c) :
+    l.take k = List.replicate k c := by
+  apply List.eq_replicate_iff.mpr
+  exact ⟨by rw [List.length_take]; omega, h⟩
+
+/-- sub.c:179-259 -/
+theorem subCloseFin_spec (rprec : ℕ) (hp : 2 ≤ rprec) (ur vr : List Nat) (e : ℤ) (hlu : Limbs ur) (hlv : Limbs vr)
+    (hcond : ¬ (ur.head? = some 0 ∧ vr.head? = some (B - 1))) :
+    Limbs (subCloseFin rprec ur vr e).1 ∧ (subCloseFin rprec ur vr e).1 ≠ [] ∧
+    (subCloseFin rprec ur vr e).1.getLast? ≠ some 0 ∧ (subCloseFin rprec ur vr e).1.length ≤ rprec + 1 ∧
+    0 < (B : ℚ) ^ e + qr ur e - qr vr e ∧
+    |qv (subCloseFin rprec ur vr e).1 (subCloseFin rprec ur vr e).2 - ((B : ℚ) ^ e + qr ur e - qr vr e)|
+      < eps rprec * |(B : ℚ) ^ e + qr ur e - qr vr e| := by
+  unfold subCloseFin
+  simp only
+  -- the fff run when u is exhausted
+  set vr1 := if ur.isEmpty = true then vr.dropWhile (· == B - 1) else vr with hvr1
+  set e1 := e - ((vr.length - vr1.length : ℕ) : ℤ) with he1
+  have hE : (B : ℚ) ^ e + qr ur e - qr vr e = (B : ℚ) ^ e1 + qr ur e1 - qr vr1 e1 ∧ Limbs vr1 ∧
+      (ur = [] → vr1.head? ≠ some (B - 1)) := by
+    by_cases hu : ur.isEmpty = true
+    · have hue : ur = [] := List.isEmpty_iff.mp hu
+      obtain ⟨k, h1, h2, h3, h4⟩ := dropWhile_spec (· == B - 1) vr
+      have hv1 : vr1 = vr.dropWhile (· == B - 1) := by rw [hvr1, if_pos hu]
+      have hkl : k ≤ vr.length := by omega
+      have htk : vr.take k = List.replicate k (B - 1) := take_eq_replicate hkl (fun x hx => by simpa using h3 x hx)
+      rw [htk, ← hv1] at h1
+      have he1' : e1 = e - (k : ℤ) := by rw [he1, h2, hv1]
+      refine ⟨?_, ?_, fun _ => ?_⟩
+      · rw [hue, qr_nil, qr_nil, he1']
+        conv_lhs => rw [h1]
+        rw [qr_replicate_max]; ring
+      · rw [h1] at hlv; exact (Limbs_append.mp hlv).2
+      · rw [hv1]
+        rcases h4 with h | ⟨h, t, ht, hh⟩
+        · rw [h]; simp
+        · rw [ht]; simp; simpa using hh
+    · have hv1 : vr1 = vr := by rw [hvr1, if_neg hu]
+      have : e1 = e := by rw [he1, hv1]; simp
+      rw [this, hv1]
+      exact ⟨rfl, hlv, fun h => absurd (by rw [h]; rfl) hu⟩
+  obtain ⟨hE1, hlv1, hc1⟩ := hE
+  have hcond1 : ¬ (ur.head? = some 0 ∧ vr1.head? = some (B - 1)) := by
+    by_cases hu : ur.isEmpty = true
+    · have hue : ur = [] := List.isEmpty_iff.mp hu
+      rw [hue]; simp
+    · have hv1 : vr1 = vr := by rw [hvr1, if_neg hu]
+      rw [hv1]; exact hcond
+  rw [hE1]
+  clear_value vr1 e1
+  -- truncation to rprec limbs
+  obtain ⟨_, u0, u1⟩ := qr_take_drop ur rprec e1 hlu
+  obtain ⟨_, v0, v1⟩ := qr_take_drop vr1 rprec e1 hlv1
+  set ut := ur.take rprec with hut
+  set vt := vr1.take rprec with hvt
+  have hlut : Limbs ut := Limbs_take hlu _
+  have hlvt : Limbs vt := Limbs_take hlv1 _
+  obtain ⟨c1, c2, c3⟩ := closeLimbs_q ut.reverse vt.reverse e1 (Limbs_reverse hlut) (Limbs_reverse hlvt)
+  have hR : qv (closeLimbs ut.reverse vt.reverse e1).1 (closeLimbs ut.reverse vt.reverse e1).2
+      = (B : ℚ) ^ e1 + qr ut e1 - qr vt e1 := c3
+  -- lower bound of the computed value
+  have hB1 : (B : ℚ) ^ e1 = (B : ℚ) * (B : ℚ) ^ (e1 - 1) := Bz_succ e1
+  have hpow1 : (0 : ℚ) < (B : ℚ) ^ (e1 - 1) := zpow_pos Bq_pos _
+  have hB2 : (2 : ℚ) ≤ (B : ℚ) := by exact_mod_cast B_ge_two
+  obtain ⟨kk, hkk⟩ : ∃ kk, rprec = kk + 1 := ⟨rprec - 1, by omega⟩
+  have hhead_u : ut.head? = ur.head? := by rw [hut, hkk]; cases ur <;> rfl
+  have hhead_v : vt.head? = vr1.head? := by rw [hvt, hkk]; cases vr1 <;> rfl
+  have hRlow : (B : ℚ) ^ (e1 - 1) < (B : ℚ) ^ e1 + qr ut e1 - qr vt e1 := by
+    have hun := qr_nonneg ut e1
+    cases hvt' : vt with
+    | nil => rw [qr_nil]; nlinarith
+    | cons hv tv =>
+      rw [hvt'] at hlvt hhead_v
+      have ⟨hvB, hltv⟩ := Limbs_cons.mp hlvt
+      have htv := qr_lt tv (e1 - 1) hltv
+      rw [qr_cons]
+      by_cases hmax : hv = B - 1
+      · -- then u continues with a non-zero limb
+        have hv1h : vr1.head? = some (B - 1) := by rw [← hhead_v, hmax]; rfl
+        cases hut' : ut with
+        | nil =>
+          exfalso
+          have : ur = [] := by
+            rw [hut, hkk] at hut'
+            cases ur with
+            | nil => rfl
+            | cons a as => simp at hut'
+          exact hc1 this hv1h
+        | cons hu tu =>
+          rw [hut'] at hhead_u
+          have hu0 : hu ≠ 0 := by
+            intro h0; apply hcond1
+            exact ⟨by rw [← hhead_u, h0]; rfl, hv1h⟩
+          rw [qr_cons]
+          have h1 : (1 : ℚ) ≤ (hu : ℚ) := by exact_mod_cast Nat.one_le_iff_ne_zero.mpr hu0
+          have hvq : (hv : ℚ) = (B : ℚ) - 1 := by rw [hmax, Nat.cast_sub (le_of_lt one_lt_B)]; simp
+          have := qr_nonneg tu (e1 - 1)
+          rw [hvq]; nlinarith
+      · have hvq : (hv : ℚ) ≤ (B : ℚ) - 2 := by
+          have : hv ≤ B - 2 := by omega
+          have h2 : ((B - 2 : ℕ) : ℚ) = (B : ℚ) - 2 := by rw [Nat.cast_sub B_ge_two]; simp
+          rw [← h2]; exact_mod_cast this
+        nlinarith
+  -- the normalisation
+  obtain ⟨n1, n2, n3, n4, n5⟩ := stripHigh_spec (closeLimbs ut.reverse vt.reverse e1).1 (closeLimbs ut.reverse vt.reverse e1).2 c1
+  have hlen : max ut.reverse.length vt.reverse.length ≤ rprec := by
+    simp only [List.length_reverse, hut, hvt, List.length_take]; omega
+  generalize closeLimbs ut.reverse vt.reverse e1 = cl at *
+  obtain ⟨tp, e2⟩ := cl
+  simp only at c1 c2 hR n1 n2 n3 n4 n5 ⊢
+  generalize stripHigh tp e2 = sh at *
+  obtain ⟨rd, e3⟩ := sh
+  simp only at n1 n2 n3 n4 n5 ⊢
+  have hpw : (B : ℚ) ^ (e1 - (rprec : ℤ)) * 2 ≤ (B : ℚ) ^ (e1 - 1) := by
+    have h1 : (B : ℚ) ^ (e1 - (rprec : ℤ)) * (B : ℚ) = (B : ℚ) ^ (e1 - (rprec : ℤ) + 1) := by rw [zpow_add₀ Bq_ne, zpow_one]
+    have h2 : (B : ℚ) ^ (e1 - (rprec : ℤ) + 1) ≤ (B : ℚ) ^ (e1 - 1) := zpow_le_zpow_B (by omega)
+    have h3 : (0 : ℚ) < (B : ℚ) ^ (e1 - (rprec : ℤ)) := zpow_pos Bq_pos _
+    nlinarith
+  have hEpos : 0 < (B : ℚ) ^ e1 + qr ur e1 - qr vr1 e1 := by nlinarith
+  refine ⟨n1, ?_, n2, by omega, hEpos, ?_⟩
+  · intro h
+    have hpos : 0 < qv tp e2 := by rw [hR]; linarith
+    rw [← n4, h, qv_nil] at hpos; exact lt_irrefl _ hpos
+  · rw [n4, hR]
+    refine sub_err_q' rprec (by omega) _ _ (qr ur e1 - qr ut e1) (qr vr1 e1 - qr vt e1) (e1 + 1) (by ring) u0 v0 ?_ ?_ ?_
+    · rw [show e1 + 1 - ((rprec : ℤ) + 1) = e1 - (rprec : ℤ) by ring]; exact u1
+    · rw [show e1 + 1 - ((rprec : ℤ) + 1) = e1 - (rprec : ℤ) by ring]; exact v1
+    · rw [show e1 + 1 - 2 = e1 - 1 by ring]; nlinarith
+
+
+/-- sub.c:170-259, the whole `x+1 000… / x fff…` path: E = B^e + u − v (the implicit 1 is the difference of
+    the limbs above) -/
+theorem subClose_spec (rprec : ℕ) (hp : 2 ≤ rprec) : ∀ (ur vr : List Nat) (e : ℤ), Limbs ur → Limbs vr →
+    Limbs (subClose rprec ur vr e).1 ∧ (subClose rprec ur vr e).1 ≠ [] ∧
+    (subClose rprec ur vr e).1.getLast? ≠ some 0 ∧ (subClose rprec ur vr e).1.length ≤ rprec + 1 ∧
+    0 < (B : ℚ) ^ e + qr ur e - qr vr e ∧
+    |qv (subClose rprec ur vr e).1 (subClose rprec ur vr e).2 - ((B : ℚ) ^ e + qr ur e - qr vr e)|
+      < eps rprec * |(B : ℚ) ^ e + qr ur e - qr vr e|
+  | [], vr, e, hlu, hlv => by
+      rw [subClose]; exact subCloseFin_spec rprec hp [] vr e hlu hlv (by simp)
+      all_goals simp
+  | (x + 1) :: us, vr, e, hlu, hlv => by
+      rw [subClose]; exact subCloseFin_spec rprec hp _ vr e hlu hlv (by simp)
+      all_goals simp
+  | 0 :: us, [], e, hlu, hlv => by
+      rw [subClose]; exact subCloseFin_spec rprec hp _ [] e hlu hlv (by simp)
+      all_goals simp
+  | 0 :: us, v :: vs, e, hlu, hlv => by
+      rw [subClose]
+      by_cases hv : v = B - 1
+      · rw [if_pos hv]
+        have ih := subClose_spec rprec hp us vs (e - 1) (Limbs_cons.mp hlu).2 (Limbs_cons.mp hlv).2
+        have hE : (B : ℚ) ^ e + qr (0 :: us) e - qr (v :: vs) e = (B : ℚ) ^ (e - 1) + qr us (e - 1) - qr vs (e - 1) := by
+          rw [qr_cons, qr_cons, hv, Nat.cast_sub (le_of_lt one_lt_B), Bz_succ e]; push_cast; ring
+        rw [hE]; exact ih
+      · rw [if_neg hv]
+        exact subCloseFin_spec rprec hp _ _ e hlu hlv (by simp [hv])
+
+
+
+theorem SubOK_neg {prec : ℕ} {D : ℚ} {rd : List Nat} {e : ℤ} {f : Bool} (h : SubOK prec D (rd, e, f)) :
+    SubOK prec (-D) (rd, e, !f) := by
+  obtain ⟨h1, h2, h3, h4, h5⟩ := h
+  refine ⟨h1, h2, h3, fun h => h4 (by linarith), fun h => ?_⟩
+  have := h5 (by intro h'; apply h; rw [h']; ring)
+  simp only at this ⊢
+  rw [abs_neg]
+  have e : (if (!f) = true then (-1 : ℚ) else 1) * qv rd e - -D = -((if f = true then (-1 : ℚ) else 1) * qv rd e - D) := by
+    cases f <;> simp <;> ring
+  rw [e, abs_neg]; exact this
+
+theorem SubOK_congr {prec : ℕ} {D D' : ℚ} {r : List Nat × ℤ × Bool} (h : SubOK prec D r) (hd : D = D') :
+    SubOK prec D' r := hd ▸ h
+
+theorem SubOK_of_close {prec : ℕ} {E : ℚ} {rd : List Nat} {e : ℤ}
+    (h : Limbs rd ∧ rd ≠ [] ∧ rd.getLast? ≠ some 0 ∧ rd.length ≤ prec + 1 ∧ 0 < E ∧ |qv rd e - E| < eps prec * |E|) :
+    SubOK prec E (rd, e, false) := by
+  obtain ⟨h1, h2, h3, h4, h5, h6⟩ := h
+  refine ⟨h1, h3, h4, fun h => absurd h (ne_of_gt h5), fun _ => ?_⟩
+  simpa using h6
+
+theorem qr_reverse (d : List Nat) (e : ℤ) : qr d.reverse e = qv d e := by unfold qr; rw [List.reverse_reverse]
+
+theorem qr_ge_head (h : ℕ) (t : List Nat) (e : ℤ) : (h : ℚ) * (B : ℚ) ^ (e - 1) ≤ qr (h :: t) e := by
+  rw [qr_cons]; linarith [qr_nonneg t (e - 1)]
+
+theorem qr_lt_head (h : ℕ) (t : List Nat) (e : ℤ) (hl : Limbs t) : qr (h :: t) e < ((h : ℚ) + 1) * (B : ℚ) ^ (e - 1) := by
+  rw [qr_cons]; linarith [qr_lt t (e - 1) hl]
+
+/-- U has the larger top limb: `general_case` or the x+1/x path -/
+theorem subDiffer_main (prec : ℕ) (hp : 2 ≤ prec) (a b : List Nat) (e : ℤ) (hla : Limbs a) (hlb : Limbs b)
+    (hna : a ≠ []) (hnb : b ≠ []) (hlt : b.headD 0 < a.headD 0) :
+    (a.headD 0 ≠ (b.headD 0 + 1) % B → SubOK prec (qr a e - qr b e) (subGeneral (prec + 1) a.reverse b.reverse e 0)) ∧
+    (¬ a.headD 0 ≠ (b.headD 0 + 1) % B →
+      SubOK prec (qr a e - qr b e) ((subClose prec a.tail b.tail (e - 1)).1, (subClose prec a.tail b.tail (e - 1)).2, false)) := by
+  obtain ⟨ha, ta, rfl⟩ : ∃ ha ta, a = ha :: ta := by cases a with | nil => exact absurd rfl hna | cons x xs => exact ⟨x, xs, rfl⟩
+  obtain ⟨hb, tb, rfl⟩ : ∃ hb tb, b = hb :: tb := by cases b with | nil => exact absurd rfl hnb | cons x xs => exact ⟨x, xs, rfl⟩
+  have hlt' : hb < ha := by simpa using hlt
+  have ⟨haB, hlta⟩ := Limbs_cons.mp hla
+  have ⟨hbB, hltb⟩ := Limbs_cons.mp hlb
+  have hmod : (hb + 1) % B = hb + 1 := Nat.mod_eq_of_lt (by omega)
+  have hpow : (0 : ℚ) < (B : ℚ) ^ (e - 1) := zpow_pos Bq_pos _
+  constructor
+  · intro hadj
+    have hadj' : ha ≠ hb + 1 := by simpa [hmod] using hadj
+    have hge2 : hb + 2 ≤ ha := by omega
+    have hgap : (B : ℚ) ^ (e - 2) ≤ qv (ha :: ta).reverse e - qv (hb :: tb).reverse (e - 0) := by
+      rw [sub_zero, ← qr, ← qr]
+      have h1 := qr_ge_head ha ta e
+      have h2 := qr_lt_head hb tb e hltb
+      have h3 : ((hb : ℚ) + 2) ≤ (ha : ℚ) := by exact_mod_cast hge2
+      have h4 : (B : ℚ) ^ (e - 2) ≤ (B : ℚ) ^ (e - 1) := zpow_le_zpow_B (by omega)
+      nlinarith
+    have hr : (ha :: ta).reverse ≠ [] := by simp
+    have ht : (ha :: ta).reverse.getLast? ≠ some 0 := by rw [List.getLast?_reverse]; simp; omega
+    have := subGeneral_ok prec hp (ha :: ta).reverse (hb :: tb).reverse e 0 (le_refl _) (Limbs_reverse hla) hr ht
+      (Limbs_reverse hlb) hgap
+    rw [sub_zero] at this
+    exact this
+  · intro hadj
+    have hadj' : ha = hb + 1 := by
+      have : ¬ ha ≠ hb + 1 := by simpa [hmod] using hadj
+      omega
+    have hE : qr (ha :: ta) e - qr (hb :: tb) e = (B : ℚ) ^ (e - 1) + qr ta (e - 1) - qr tb (e - 1) := by
+      rw [qr_cons, qr_cons, hadj']; push_cast; ring
+    rw [hE]
+    exact SubOK_of_close (subClose_spec prec hp ta tb (e - 1) hlta hltb)
+
+theorem subDiffer_ok (prec : ℕ) (hp : 2 ≤ prec) (ur vr : List Nat) (e : ℤ) (hlu : Limbs ur) (hlv : Limbs vr)
+    (hnu : ur ≠ []) (hnv : vr ≠ []) (hd : ur.headD 0 ≠ vr.headD 0) :
+    SubOK prec (qr ur e - qr vr e) (subDiffer prec ur vr e) := by
+  unfold subDiffer
+  by_cases hlt : ur.headD 0 < vr.headD 0
+  · rw [if_pos hlt]
+    obtain ⟨m1, m2⟩ := subDiffer_main prec hp vr ur e hlv hlu hnv hnu hlt
+    have h2 : qr ur e - qr vr e = -(qr vr e - qr ur e) := by ring
+    rw [h2]
+    by_cases hc : vr.headD 0 ≠ (ur.headD 0 + 1) % B
+    · rw [if_pos hc]
+      have := m1 hc
+      generalize subGeneral (prec + 1) vr.reverse ur.reverse e 0 = r at *
+      obtain ⟨rd, e', sw⟩ := r
+      have h3 : SubOK prec (-(qr vr e - qr ur e)) (rd, e', !sw) := SubOK_neg this
+      exact h3
+    · rw [if_neg hc]
+      have := m2 hc
+      generalize subClose prec vr.tail ur.tail (e - 1) = r at *
+      obtain ⟨rd, e'⟩ := r
+      have h3 : SubOK prec (-(qr vr e - qr ur e)) (rd, e', !false) := SubOK_neg this
+      exact h3
+  · rw [if_neg hlt]
+    obtain ⟨m1, m2⟩ := subDiffer_main prec hp ur vr e hlu hlv hnu hnv (by omega)
+    by_cases hc : ur.headD 0 ≠ (vr.headD 0 + 1) % B
+    · rw [if_pos hc]; exact m1 hc
+    · rw [if_neg hc]
+      have := m2 hc
+      generalize subClose prec ur.tail vr.tail (e - 1) = r at *
+      obtain ⟨rd, e'⟩ := r
+      exact this
+
+
+theorem topLimb_eq_head_reverse (d : List Nat) : topLimb d = d.reverse.headD 0 := by
+  unfold topLimb; rw [← List.head?_reverse]; cases d.reverse <;> rfl
+
+theorem subOne_ok (prec : ℕ) (hp : 2 ≤ prec) (ud vd : List Nat) (uexp : ℤ)
+    (hlu : Limbs ud) (hnu : ud ≠ []) (htu : ud.getLast? ≠ some 0) (hlv : Limbs vd) (hnv : vd ≠ []) :
+    SubOK prec (qv ud uexp - qv vd (uexp - 1)) (subOne prec ud uexp vd) := by
+  unfold subOne
+  simp only
+  obtain ⟨h, t, hr⟩ : ∃ h t, ud.reverse = h :: t := by
+    cases hrev : ud.reverse with
+    | nil => exact absurd (List.reverse_eq_nil_iff.mp hrev) hnu
+    | cons x xs => exact ⟨x, xs, rfl⟩
+  obtain ⟨hv, tv, hrv⟩ : ∃ h t, vd.reverse = h :: t := by
+    cases hrev : vd.reverse with
+    | nil => exact absurd (List.reverse_eq_nil_iff.mp hrev) hnv
+    | cons x xs => exact ⟨x, xs, rfl⟩
+  have hh0 : h ≠ 0 := by
+    intro h0; apply htu; rw [← List.head?_reverse, hr, h0]; rfl
+  have hlr : Limbs (h :: t) := by rw [← hr]; exact Limbs_reverse hlu
+  have hlrv : Limbs (hv :: tv) := by rw [← hrv]; exact Limbs_reverse hlv
+  have ⟨_, hlt⟩ := Limbs_cons.mp hlr
+  have ⟨hvB, hltv⟩ := Limbs_cons.mp hlrv
+  have hX : qv ud uexp = qr (h :: t) uexp := by rw [← hr, qr_reverse]
+  have hY : qv vd (uexp - 1) = qr (hv :: tv) (uexp - 1) := by rw [← hrv, qr_reverse]
+  have htl : topLimb vd = hv := by rw [topLimb_eq_head_reverse, hrv]; rfl
+  have hp1 : (0 : ℚ) < (B : ℚ) ^ (uexp - 1) := zpow_pos Bq_pos _
+  have hp2 : (0 : ℚ) < (B : ℚ) ^ (uexp - 2) := zpow_pos Bq_pos _
+  have hB12 : (B : ℚ) ^ (uexp - 1) = (B : ℚ) * (B : ℚ) ^ (uexp - 2) := by
+    have := Bz_succ (uexp - 1); rwa [show uexp - 1 - 1 = uexp - 2 by ring] at this
+  have hB2 : (2 : ℚ) ≤ (B : ℚ) := by exact_mod_cast B_ge_two
+  by_cases hC0 : ud.reverse.headD 0 ≠ 1 ∨ topLimb vd ≠ B - 1 ∨ (ud.length ≥ 2 ∧ ud.reverse.tail.headD 0 ≠ 0)
+  · rw [if_pos hC0]
+    have hC : h ≠ 1 ∨ hv ≠ B - 1 ∨ (ud.length ≥ 2 ∧ t.headD 0 ≠ 0) := by
+      rw [hr, htl] at hC0; simpa using hC0
+    apply subGeneral_ok prec hp ud vd uexp 1 (by norm_num) hlu hnu htu hlv
+    rw [hX, hY]
+    have hXge := qr_ge_head h t uexp
+    have hYlt := qr_lt (hv :: tv) (uexp - 1) hlrv
+    rcases hC with c1 | c2 | c3
+    · have : (2 : ℚ) ≤ (h : ℚ) := by
+        have : 2 ≤ h := by omega
+        exact_mod_cast this
+      nlinarith
+    · have hY2 := qr_lt_head hv tv (uexp - 1) hltv
+      rw [show uexp - 1 - 1 = uexp - 2 by ring] at hY2
+      have hvq : (hv : ℚ) + 1 ≤ (B : ℚ) - 1 := by
+        have : hv + 1 ≤ B - 1 := by omega
+        have h2 : ((B - 1 : ℕ) : ℚ) = (B : ℚ) - 1 := by rw [Nat.cast_sub (le_of_lt one_lt_B)]; simp
+        rw [← h2]; exact_mod_cast this
+      have h1 : (1 : ℚ) ≤ (h : ℚ) := by exact_mod_cast Nat.one_le_iff_ne_zero.mpr hh0
+      nlinarith
+    · obtain ⟨_, c4⟩ := c3
+      cases t with
+      | nil => simp at c4
+      | cons s t' =>
+        simp only [List.headD_cons] at c4
+        have hs : (1 : ℚ) ≤ (s : ℚ) := by exact_mod_cast Nat.one_le_iff_ne_zero.mpr c4
+        have h1 : (1 : ℚ) ≤ (h : ℚ) := by exact_mod_cast Nat.one_le_iff_ne_zero.mpr hh0
+        rw [qr_cons, qr_cons, show uexp - 1 - 1 = uexp - 2 by ring]
+        have := qr_nonneg t' (uexp - 2)
+        nlinarith
+  · rw [if_neg hC0]
+    have hh1 : h = 1 := by
+      by_contra hne; apply hC0; left; rw [hr]; simpa using hne
+    rw [hr]; simp only [List.tail_cons]
+    have hE : qv ud uexp - qv vd (uexp - 1) = (B : ℚ) ^ (uexp - 1) + qr t (uexp - 1) - qr (hv :: tv) (uexp - 1) := by
+      rw [hX, hY, qr_cons, hh1]; push_cast; ring
+    rw [hE, hrv]
+    have := SubOK_of_close (subClose_spec prec hp t (hv :: tv) (uexp - 1) hlt hlrv)
+    generalize subClose prec t (hv :: tv) (uexp - 1) = r at *
+    obtain ⟨rd, e'⟩ := r
+    exact this
+
+
+/-- sub.c:89-403: the whole magnitude subtraction, operands ordered by exponent -/
+theorem subCore_ok (prec : ℕ) (hp : 2 ≤ prec) (ud vd : List Nat) (uexp vexp : ℤ)
+    (hlu : Limbs ud) (hnu : ud ≠ []) (htu : ud.getLast? ≠ some 0)
+    (hlv : Limbs vd) (hnv : vd ≠ []) (hexp : vexp ≤ uexp) :
+    SubOK prec (qv ud uexp - qv vd vexp) (subCore prec ud uexp vd vexp) := by
+  unfold subCore
+  simp only
+  by_cases h0 : uexp - vexp = 0
+  · rw [if_pos h0]
+    have hve : vexp = uexp := by omega
+    subst hve
+    have hsp := scan_spec ud.reverse vd.reverse vexp (Limbs_reverse hlu) (Limbs_reverse hlv) (by simpa using hnu) (by simpa using hnv)
+    rw [qr_reverse, qr_reverse] at hsp
+    cases hsc : scan ud.reverse vd.reverse vexp with
+    | uGone vr e =>
+      rw [hsc] at hsp; simp only at hsp ⊢
+      obtain ⟨hD, hl⟩ := hsp
+      have := cancellation_ok prec (by omega) vr e hl true (-1) (by simp)
+      rw [hD]
+      generalize cancellation (prec + 1) vr e = c at *
+      obtain ⟨rd, e'⟩ := c
+      simpa using this
+    | vGone ur e =>
+      rw [hsc] at hsp; simp only at hsp ⊢
+      obtain ⟨hD, hl, _⟩ := hsp
+      have := cancellation_ok prec (by omega) ur e hl false 1 (by simp)
+      rw [hD]
+      generalize cancellation (prec + 1) ur e = c at *
+      obtain ⟨rd, e'⟩ := c
+      simpa using this
+    | differ ur vr e =>
+      rw [hsc] at hsp; simp only at hsp ⊢
+      obtain ⟨hD, hl1, hl2, hn1, hn2, hd⟩ := hsp
+      rw [hD]
+      exact subDiffer_ok prec hp ur vr e hl1 hl2 hn1 hn2 hd
+  · rw [if_neg h0]
+    by_cases h1 : uexp - vexp = 1
+    · rw [if_pos h1]
+      have hve : vexp = uexp - 1 := by omega
+      rw [hve]
+      exact subOne_ok prec hp ud vd uexp hlu hnu htu hlv hnv
+    · rw [if_neg h1]
+      have hve : vexp = uexp - (uexp - vexp) := by ring
+      have hX := qv_ge ud uexp hnu htu
+      have hY := qv_lt vd vexp hlv
+      have hB1 : (B : ℚ) ^ (uexp - 1) = (B : ℚ) * (B : ℚ) ^ (uexp - 2) := by
+        have := Bz_succ (uexp - 1); rwa [show uexp - 1 - 1 = uexp - 2 by ring] at this
+      have hYle : (B : ℚ) ^ vexp ≤ (B : ℚ) ^ (uexp - 2) := zpow_le_zpow_B (by omega)
+      have hp2 : (0 : ℚ) < (B : ℚ) ^ (uexp - 2) := zpow_pos Bq_pos _
+      have hB2 : (2 : ℚ) ≤ (B : ℚ) := by exact_mod_cast B_ge_two
+      have := subGeneral_ok prec hp ud vd uexp (uexp - vexp) (by omega) hlu hnu htu hlv
+        (by rw [← hve]; nlinarith)
+      rwa [← hve] at this
+
+
+
+theorem eps_lt_one (prec : ℕ) (hp : 2 ≤ prec) : eps prec < 1 := by
+  rw [eps_eq, div_lt_one (pow_pos Bq_pos _)]
+  have h1 : (B : ℚ) ^ 1 ≤ (B : ℚ) ^ (prec - 1) :=
+    pow_le_pow_right₀ (by exact_mod_cast (le_of_lt one_lt_B)) (by omega)
+  have h2 : (4 : ℚ) < (B : ℚ) := by rw [Bq_eq]; norm_num
+  rw [pow_one] at h1; linarith
+
+/-- from a `SubOK` triple to the mpf result built at sub.c:405-409 -/
+theorem fin_of_SubOK (prec : ℕ) (hp : 2 ≤ prec) (D : ℚ) (rd : List Nat) (e : ℤ) (flip : Bool) (c : Bool)
+    (h : SubOK prec D (rd, e, flip)) :
+    WF ⟨prec, if (c != flip) = true then -(rd.length : Int) else (rd.length : Int), if rd.length = 0 then 0 else e, rd⟩ ∧
+    (D = 0 → toQ ⟨prec, if (c != flip) = true then -(rd.length : Int) else (rd.length : Int), if rd.length = 0 then 0 else e, rd⟩ = 0) ∧
+    (D ≠ 0 → |toQ ⟨prec, if (c != flip) = true then -(rd.length : Int) else (rd.length : Int), if rd.length = 0 then 0 else e, rd⟩
+        - (if c then -1 else 1) * D| < eps prec * |D|) := by
+  obtain ⟨h1, h2, h3, h4, h5⟩ := h
+  simp only at h1 h2 h3 h4 h5
+  refine ⟨WF_mk_neg h1 h2 h3 (fun h => by rw [h]; simp), fun hD => toQ_of_size_zero (h4 hD), fun hD => ?_⟩
+  have hb := h5 hD
+  have hne : rd.length ≠ 0 := by
+    intro hl
+    have : rd = [] := List.eq_nil_of_length_eq_zero hl
+    rw [this, qv_nil, mul_zero, zero_sub, abs_neg] at hb
+    have := eps_lt_one prec hp
+    have hpos : 0 < |D| := abs_pos.mpr hD
+    nlinarith
+  rw [if_neg hne, toQ_mk_neg]
+  have hq : (val rd : ℚ) * (B : ℚ) ^ (e - (rd.length : ℤ)) = qv rd e := rfl
+  rw [mul_assoc, hq]
+  have : (if (c != flip) = true then (-1 : ℚ) else 1) = (if c then -1 else 1) * (if flip then -1 else 1) := by
+    cases c <;> cases flip <;> simp
+  rw [this, mul_assoc, ← mul_sub, abs_mul]
+  have : |(if c = true then (-1 : ℚ) else 1)| = 1 := by cases c <;> simp
+  rw [this, one_mul]; exact hb
+
+theorem subMag_spec (prec : ℕ) (hp : 2 ≤ prec) (u v : F) (hu : OpWF u) (hv : OpWF v)
+    (hu0 : u.size ≠ 0) (hv0 : v.size ≠ 0) (hs : (u.size < 0) ↔ (v.size < 0)) :
+    WF (subMag prec (decide (u.size < 0)) u v) ∧
+    (toQ u - toQ v = 0 → toQ (subMag prec (decide (u.size < 0)) u v) = 0) ∧
+    (toQ u - toQ v ≠ 0 →
+      |toQ (subMag prec (decide (u.size < 0)) u v) - (toQ u - toQ v)| < eps prec * |toQ u - toQ v|) := by
+  have hnu : u.d ≠ [] := fun h => hu0 (by have := hu.2.1; rw [h] at this; simp at this; omega)
+  have hnv : v.d ≠ [] := fun h => hv0 (by have := hv.2.1; rw [h] at this; simp at this; omega)
+  have hsg : sg v = sg u := by
+    unfold sg
+    by_cases h : u.size < 0
+    · rw [if_pos h, if_pos (hs.mp h)]
+    · rw [if_neg h, if_neg (fun h' => h (hs.mpr h'))]
+  have hD : toQ u - toQ v = sg u * (qv u.d u.exp - qv v.d v.exp) := by rw [toQ_qv u, toQ_qv v, hsg]; ring
+  have hsgc : sg u = (if (decide (u.size < 0)) = true then (-1 : ℚ) else 1) := by
+    unfold sg; by_cases h : u.size < 0 <;> simp [h]
+  have hsgne : sg u ≠ 0 := by rcases sg_cases u with h | h <;> rw [h] <;> norm_num
+  have habs : |sg u| = 1 := by rcases sg_cases u with h | h <;> rw [h] <;> simp
+  unfold subMag
+  simp only
+  by_cases hswap : u.exp < v.exp
+  · simp only [hswap, decide_true, if_true]
+    have hok := subCore_ok prec hp v.d u.d v.exp u.exp hv.1 hnv hv.2.2.1 hu.1 hnu (le_of_lt hswap)
+    generalize subCore prec v.d v.exp u.d u.exp = r at *
+    obtain ⟨rd, e, flip⟩ := r
+    obtain ⟨f1, f2, f3⟩ := fin_of_SubOK prec hp _ rd e flip (decide (u.size < 0) != true) hok
+    refine ⟨f1, fun h => f2 ?_, fun h => ?_⟩
+    · rw [hD] at h
+      rcases mul_eq_zero.mp h with h' | h'
+      · exact absurd h' hsgne
+      · linarith
+    · have hne : qv v.d v.exp - qv u.d u.exp ≠ 0 := by
+        intro h'; apply h; rw [hD]; have : qv u.d u.exp - qv v.d v.exp = 0 := by linarith
+        rw [this, mul_zero]
+      have := f3 hne
+      rw [hD, abs_mul, habs, one_mul]
+      have e1 : (if (decide (u.size < 0) != true) = true then (-1 : ℚ) else 1) * (qv v.d v.exp - qv u.d u.exp)
+          = sg u * (qv u.d u.exp - qv v.d v.exp) := by
+        rw [hsgc]; by_cases h' : u.size < 0 <;> simp [h']
+      rw [e1] at this
+      rw [show |qv u.d u.exp - qv v.d v.exp| = |qv v.d v.exp - qv u.d u.exp| from abs_sub_comm _ _]
+      exact this
+  · simp only [hswap, decide_false, if_false]
+    have hok := subCore_ok prec hp u.d v.d u.exp v.exp hu.1 hnu hu.2.2.1 hv.1 hnv (by omega)
+    generalize subCore prec u.d u.exp v.d v.exp = r at *
+    obtain ⟨rd, e, flip⟩ := r
+    obtain ⟨f1, f2, f3⟩ := fin_of_SubOK prec hp _ rd e flip (decide (u.size < 0) != false) hok
+    refine ⟨f1, fun h => f2 ?_, fun h => ?_⟩
+    · rw [hD] at h
+      rcases mul_eq_zero.mp h with h' | h'
+      · exact absurd h' hsgne
+      · exact h'
+    · have hne : qv u.d u.exp - qv v.d v.exp ≠ 0 := by
+        intro h'; apply h; rw [hD, h', mul_zero]
+      have := f3 hne
+      rw [hD, abs_mul, habs, one_mul]
+      have e1 : (if (decide (u.size < 0) != false) = true then (-1 : ℚ) else 1) = sg u := by
+        rw [hsgc]; by_cases h' : u.size < 0 <;> simp [h']
+      rw [e1] at this
+      exact this
+
+
+
+/-- what the property demands of a result `r` for the exact value `E` (format, zero, error bound) -/
+def Accurate (prec : ℕ) (r : F) (E : ℚ) : Prop :=
+  WF r ∧ (E = 0 → toQ r = 0) ∧ (E ≠ 0 → |toQ r - E| < eps prec * |E|)
+
+theorem accurate_of_set (prec : ℕ) (hp : 1 ≤ prec) (u : F) (hu : OpWF u) : Accurate prec (set prec u) (toQ u) := by
+  obtain ⟨h1, h2, _⟩ := set_spec prec hp u hu
+  refine ⟨h1, fun h => ?_, fun h => h2 (fun h0 => h (toQ_of_size_zero (hu.d_nil h0)))⟩
+  by_cases h0 : u.size = 0
+  · unfold set; rw [hu.d_nil h0]; simp [top, toQ]
+  · exfalso
+    have hne : u.d ≠ [] := fun h' => h0 (by have := hu.2.1; rw [h'] at this; simp at this; omega)
+    have := val_pos_of_top hne hu.2.2.1
+    rw [toQ_sg] at h
+    rcases mul_eq_zero.mp h with h' | h'
+    · rcases sg_cases u with s | s <;> rw [s] at h' <;> norm_num at h'
+    · have : (0 : ℚ) < (val u.d : ℚ) * (B : ℚ) ^ (u.exp - (u.d.length : ℤ)) :=
+        mul_pos (by exact_mod_cast this) (zpow_pos Bq_pos _)
+      linarith
+
+theorem accurate_alias (prec : ℕ) (u : F) (hu : OpWF u) (hlen : u.d.length ≤ prec + 1) :
+    Accurate prec {u with prec := prec} (toQ u) := by
+  refine ⟨⟨hu.1, hu.2.1, by rw [← hu.2.1]; exact hlen, hu.2.2.1, hu.2.2.2⟩, fun h => by simpa [toQ] using h, fun h => ?_⟩
+  have : toQ {u with prec := prec} = toQ u := rfl
+  rw [this, sub_self, abs_zero]
+  exact mul_pos (by unfold eps; positivity) (abs_pos.mpr h)
+
+theorem accurate_subMag (prec : ℕ) (hp : 2 ≤ prec) (u v : F) (hu : OpWF u) (hv : OpWF v)
+    (hu0 : u.size ≠ 0) (hv0 : v.size ≠ 0) (hs : (u.size < 0) ↔ (v.size < 0)) :
+    Accurate prec (subMag prec (decide (u.size < 0)) u v) (toQ u - toQ v) :=
+  subMag_spec prec hp u v hu hv hu0 hv0 hs
+
+theorem accurate_addSame (prec : ℕ) (hp : 1 ≤ prec) (u v : F) (hu : OpWF u) (hv : OpWF v)
+    (hu0 : u.size ≠ 0) (hv0 : v.size ≠ 0) (hs : (u.size < 0) ↔ (v.size < 0)) :
+    Accurate prec (addSame prec u v) (toQ u + toQ v) := by
+  obtain ⟨h1, h2⟩ := addSame_spec prec hp u v hu hv hu0 hv0 hs
+  refine ⟨h1, fun h => ?_, fun _ => h2⟩
+  -- same signs and both non-zero: the sum cannot vanish
+  exfalso
+  have hnu : u.d ≠ [] := fun h' => hu0 (by have := hu.2.1; rw [h'] at this; simp at this; omega)
+  have hnv : v.d ≠ [] := fun h' => hv0 (by have := hv.2.1; rw [h'] at this; simp at this; omega)
+  have hsg : sg v = sg u := by
+    unfold sg
+    by_cases h' : u.size < 0
+    · rw [if_pos h', if_pos (hs.mp h')]
+    · rw [if_neg h', if_neg (fun h'' => h' (hs.mpr h''))]
+  rw [toQ_qv u, toQ_qv v, hsg, ← mul_add] at h
+  have p1 : 0 < qv u.d u.exp := qv_pos_iff.mpr (val_pos_of_top hnu hu.2.2.1)
+  have p2 : 0 < qv v.d v.exp := qv_pos_iff.mpr (val_pos_of_top hnv hv.2.2.1)
+  rcases mul_eq_zero.mp h with h' | h'
+  · rcases sg_cases u with s | s <;> rw [s] at h' <;> norm_num at h'
+  · linarith
+
+theorem neg_size_sign (v : F) (hv0 : v.size ≠ 0) (u : F) (hd : ¬ ((u.size < 0) ↔ (v.size < 0))) :
+    (u.size < 0) ↔ (({v with size := -v.size} : F).size < 0) := by
+  simp only
+  constructor
+  · intro h
+    have : ¬ v.size < 0 := fun h' => hd ⟨fun _ => h', fun _ => h⟩
+    omega
+  · intro h
+    by_contra hc
+    exact hd ⟨fun h' => absurd h' hc, fun h' => by omega⟩
+
+/-- mpf_sub, all sign combinations, zero operands and aliasing patterns -/
+theorem sub_accurate (prec : ℕ) (hp : 2 ≤ prec) (u v : F) (hu : OpWF u) (hv : OpWF v) (rIsU rIsV : Bool)
+    (hau : rIsU = true → u.d.length ≤ prec + 1) (hav : rIsV = true → v.d.length ≤ prec + 1) :
+    Accurate prec (sub prec rIsU rIsV u v) (toQ u - toQ v) := by
+  unfold sub
+  by_cases hu0 : u.size = 0
+  · rw [if_pos hu0, toQ_of_size_zero (hu.d_nil hu0), zero_sub, ← toQ_neg_size v hv]
+    cases rIsV
+    · rw [neg_eq_set]; exact accurate_of_set prec (by omega) _ (OpWF_neg_size v hv)
+    · have := accurate_alias prec _ (OpWF_neg_size v hv) (hav rfl)
+      exact this
+  · rw [if_neg hu0]
+    by_cases hv0 : v.size = 0
+    · rw [if_pos hv0, toQ_of_size_zero (hv.d_nil hv0), sub_zero]
+      cases rIsU
+      · exact accurate_of_set prec (by omega) u hu
+      · exact accurate_alias prec u hu (hau rfl)
+    · rw [if_neg hv0]
+      by_cases hs : (u.size < 0) ↔ (v.size < 0)
+      · have hb : ((decide (u.size < 0)) != (decide (v.size < 0))) = false := by
+          by_cases a : u.size < 0
+          · simp [a, hs.mp a]
+          · have b : ¬ v.size < 0 := fun h => a (hs.mpr h)
+            simp [a, b]
+        rw [hb]; simp only [Bool.false_eq_true, if_false]
+        exact accurate_subMag prec hp u v hu hv hu0 hv0 hs
+      · have hb : ((decide (u.size < 0)) != (decide (v.size < 0))) = true := by
+          by_cases a : u.size < 0 <;> by_cases b : v.size < 0 <;> simp [a, b] <;> exact hs (by simp [a, b])
+        rw [hb]; simp only [if_true]
+        have := accurate_addSame prec (by omega) u {v with size := -v.size} hu (OpWF_neg_size v hv) hu0
+          (by simpa using hv0) (neg_size_sign v hv0 u hs)
+        rwa [toQ_neg_size v hv, ← sub_eq_add_neg] at this
+
+/-- mpf_add, all sign combinations, zero operands and aliasing patterns -/
+theorem add_accurate (prec : ℕ) (hp : 2 ≤ prec) (u v : F) (hu : OpWF u) (hv : OpWF v) (rIsU rIsV : Bool)
+    (hau : rIsU = true → u.d.length ≤ prec + 1) (hav : rIsV = true → v.d.length ≤ prec + 1) :
+    Accurate prec (add prec rIsU rIsV u v) (toQ u + toQ v) := by
+  unfold add
+  by_cases hu0 : u.size = 0
+  · rw [if_pos hu0, toQ_of_size_zero (hu.d_nil hu0), zero_add]
+    cases rIsV
+    · exact accurate_of_set prec (by omega) v hv
+    · exact accurate_alias prec v hv (hav rfl)
+  · rw [if_neg hu0]
+    by_cases hv0 : v.size = 0
+    · rw [if_pos hv0, toQ_of_size_zero (hv.d_nil hv0), add_zero]
+      cases rIsU
+      · exact accurate_of_set prec (by omega) u hu
+      · exact accurate_alias prec u hu (hau rfl)
+    · rw [if_neg hv0]
+      by_cases hs : (u.size < 0) ↔ (v.size < 0)
+      · have hb : ((decide (u.size < 0)) != (decide (v.size < 0))) = false := by
+          by_cases a : u.size < 0
+          · simp [a, hs.mp a]
+          · have b : ¬ v.size < 0 := fun h => a (hs.mpr h)
+            simp [a, b]
+        rw [hb]; simp only [Bool.false_eq_true, if_false]
+        exact accurate_addSame prec (by omega) u v hu hv hu0 hv0 hs
+      · have hb : ((decide (u.size < 0)) != (decide (v.size < 0))) = true := by
+          by_cases a : u.size < 0 <;> by_cases b : v.size < 0 <;> simp [a, b] <;> exact hs (by simp [a, b])
+        rw [hb]; simp only [if_true]
+        have := accurate_subMag prec hp u {v with size := -v.size} hu (OpWF_neg_size v hv) hu0
+          (by simpa using hv0) (neg_size_sign v hv0 u hs)
+        rwa [toQ_neg_size v hv, sub_neg_eq_add] at this
+
+
 end Mpir.Mpf
